@@ -47,12 +47,12 @@ U_ = ref.U
 LD = np.longdouble
 U_LD = float(np.finfo(LD).eps)      # 1.08e-19 on x86-64; 2.2e-16 where longdouble == double
 
-C_FFT = 60.0
-C_NE = 60.0
-C_FWD = 60.0
-C_MAT = 30.0
-C_LIN = 60.0
-C_INV = 60.0
+C_FFT = 200.0
+C_NE = 200.0
+C_FWD = 200.0
+C_MAT = 300.0
+C_LIN = 200.0
+C_INV = 300.0
 
 TAG_MIS = "psf_tap_before_centre_in_dim_smaller_than_image"
 TAG_ASYM = "psf_not_point_symmetric"
@@ -173,8 +173,12 @@ def app():
 
 
 def kdim(n):
-    opts = [st.integers(1, n), st.integers(1, n), st.just(n), st.just(1)]
+    """Kernel extent in a dimension of image extent n: any size 1..n, with the full size, sizes >= 2 and
+    even sizes over-represented (the 1x1 kernel is the uninteresting corner)."""
+    opts = [st.integers(1, n), st.just(n)]
     if n >= 2:
+        opts.append(st.integers(2, n))
+        opts.append(st.integers(2, n))
         opts.append(st.sampled_from([k for k in range(2, n + 1, 2)]))   # even sizes
     return st.one_of(*opts)
 
@@ -193,13 +197,16 @@ def psf_spec(draw, H, W, kinds):
     """A PSF no larger than the image, as a JSON-encodable spec (library builders are called in the check)."""
     kind = draw(st.sampled_from(kinds))
     mn = min(H, W)
+    if mn < 3 and kind in ("gaussian", "motion"):
+        kind = "nonneg"          # the builders can only return the 1x1 kernel there (covered by kdim)
     if kind == "gaussian":
-        r = draw(st.integers(0, (mn - 1) // 2))
+        rmax = (mn - 1) // 2
+        r = draw(st.one_of(st.integers(0, rmax), st.integers(min(1, rmax), rmax), st.just(rmax)))
         sig = draw(st.one_of(st.sampled_from(SIGMAS), st.integers(5, 80).map(lambda k: k / 16.0)))
         return {"kind": kind, "radius": r, "sigma": sig}
     if kind == "motion":
         lens = [ln for ln in range(1, mn + 1) if (ln if ln % 2 else ln + 1) <= mn]
-        ln = draw(st.sampled_from(lens))
+        ln = draw(st.one_of(st.sampled_from(lens), st.sampled_from(lens[-2:])))
         ang = draw(st.one_of(st.sampled_from(ANGLES), st.integers(-180, 360).map(float),
                              st.integers(-2880, 5760).map(lambda k: k / 16.0)))
         return {"kind": kind, "length": ln, "angle": ang}
@@ -252,15 +259,16 @@ def lam_pos():
     return st.one_of(st.sampled_from(LAMBDAS), st.integers(1, 160).map(lambda k: k / 16.0))
 
 
-def shape_hi(tier):
-    return 8 if tier == "quick" else 10
+def img_dim(tier):
+    """Image extent 1..8 (quick) / 1..10 (thorough); extents 1 and 2 are kept but not dominant."""
+    hi = 8 if tier == "quick" else 10
+    return st.one_of(st.integers(1, hi), st.integers(3, hi), st.integers(3, hi))
 
 
 @st.composite
 def base_case(draw, tier, kinds=ALL_KINDS, with_lam=True, patterns=IMG_PATTERNS):
-    hi = shape_hi(tier)
-    H = draw(st.integers(1, hi))
-    W = draw(st.one_of(st.integers(1, hi), st.just(H)))
+    H = draw(img_dim(tier))
+    W = draw(st.one_of(img_dim(tier), img_dim(tier), st.just(H)))
     case = {"H": H, "W": W, "psf": draw(psf_spec(H, W, kinds))}
     X, pat = draw(image(H, W, patterns))
     case["X"] = X
@@ -716,7 +724,7 @@ def check_psf_builders(case):
                         and P.dtype == np.float64 and bool(np.all(np.isfinite(P))), f"got {getattr(P, 'shape', None)}"):
             return out
         out.true(f"{site}:non-negative", bool(np.all(P >= 0.0)), "negative tap")
-        out.le(f"{site}:unit sum", abs(float(np.sum(P.astype(LD))) - 1.0), 4 * Kk * Kk * U_, "sum(psf) != 1")
+        out.le(f"{site}:unit sum", abs(float(np.sum(P.astype(LD))) - 1.0), 16 * Kk * Kk * U_, "sum(psf) != 1")
         pk = float(P[r, r])
         out.true(f"{site}:peak at the centre tap", pk == float(P.max()) and pk > 0, "maximum not at (r, r)")
         sym = max(float(np.max(np.abs(P - P.T))), float(np.max(np.abs(P - P[::-1, :]))),
@@ -728,7 +736,7 @@ def check_psf_builders(case):
             for j in range(Kk):
                 d2 = (i - r) ** 2 + (j - r) ** 2
                 worst = max(worst, abs(float(P[i, j]) / pk - math.exp(-d2 / (2.0 * sig * sig))))
-        out.le(f"{site}:Gaussian profile exp(-d^2/(2 sigma^2))", worst, 64 * U_, f"radius={r}, sigma={sig}")
+        out.le(f"{site}:Gaussian profile exp(-d^2/(2 sigma^2))", worst, 256 * U_, f"radius={r}, sigma={sig}")
         out.label("gaussian", f"radius={r}")
         out.nontrivial = r >= 1
         out.sample = {"radius": r, "sigma": sig, "peak": pk}
@@ -744,10 +752,9 @@ def check_psf_builders(case):
                         f"got {getattr(P, 'shape', None)}"):
             return out
         Kk = P.shape[0]
-        out.true(f"{site}:odd size that tightly contains the line (L or L+1)", Kk % 2 == 1 and Lc <= Kk <= Lc + 1,
-                 f"K={Kk} for length {Lc}")
+        out.true(f"{site}:size tightly contains the line (L or L+1)", Lc <= Kk <= Lc + 1, f"K={Kk} for length {Lc}")
         out.true(f"{site}:non-negative", bool(np.all(P >= 0.0)), "negative tap")
-        out.le(f"{site}:unit sum", abs(float(np.sum(P.astype(LD))) - 1.0), 4 * Kk * Kk * U_, "sum(psf) != 1")
+        out.le(f"{site}:unit sum", abs(float(np.sum(P.astype(LD))) - 1.0), 16 * Kk * Kk * U_, "sum(psf) != 1")
         cnt = P * Lc
         out.le(f"{site}:L samples of weight 1/L", float(np.max(np.abs(cnt - np.rint(cnt)))), 8 * Lc * U_,
                "taps are not multiples of 1/L")
@@ -801,6 +808,6 @@ PROPERTY = Property(
         "centre tap = (kH//2, kW//2) (the module's own convention, also for even sizes); vec = row-major reshape(-1)",
         "lam = 0 is exercised only where smin(A_def) >= sum|psf|/16 (invertible blur); lam > 0 in [1e-6, 10] elsewhere",
         "the oracle uses explicit index arithmetic, LAPACK svd/solve on the definitional matrix and np.longdouble residuals; numpy.fft is not used by the oracle",
-        "motion-kernel geometry is checked only as far as documented: square odd kernel of size L or L+1, L samples of weight 1/L, axis-aligned for angles 0/90/180/270",
+        "motion-kernel geometry is checked only as far as documented: square kernel of size L or L+1, L samples of weight 1/L, axis-aligned for angles 0/90/180/270",
     ],
 )
